@@ -736,7 +736,11 @@ func evalIterateStmt(vm *r.VM, node *syntax.IterateStmt) error {
 		}
 	case *value.HashMap:
 		for _, key := range tv.GetKeyOrder() {
-			v := tv.GetValue()[key]
+			v, ok := tv.GetValue()[key]
+			if !ok {
+				// removed by an earlier pass of this loop: no entry to visit
+				continue
+			}
 			keyVar := value.NewString(key)
 			// handle interrupts
 			if err := execIterationBlockFn(keyVar, v); err != nil {
